@@ -108,7 +108,7 @@ func c13(e *Env) {
 	for k := 0; k < nConns && !w.Stopped(); k++ {
 		h := w.ConnectClient(pi, 4)
 		compression := "" // model: compression in force on this connection
-		var startVer byte  // version of the last successful STARTUP on this connection (0 = none yet)
+		var startVer byte // version of the last successful STARTUP on this connection (0 = none yet)
 		seqLen := 2 + c.Choose("seqlen", 11)
 		for i := 0; i < seqLen && !w.Stopped() && h.Connected(); i++ {
 			// ---- generate one frame
